@@ -76,6 +76,14 @@ THEOREMS.update({
 })
 EXPLANATION += ("  CLI wrapper: calculate_distance_matrix.main is re-translated as a WHOLE function on every run (Generated/SrcCli.v) and proved equal to Model/Cli.v.  The link trusts the translator harness/py2gal.py (for these links extended by cfg typed_effects, kwcalls keys `module.function`, state_calls assigned to a tuple), the representation of Model/Cli.v (parsed arguments = a record of the plain argparse results, get_args() not translated = the primitive `get_args()` yielding that record; a main() denotes the list of (path, content) files it writes; `L` = ANY record of library functions over abstract types) and EXACTLY these primitives of harness/src_functions.py, each one field read / one library or constructor call standing for the function of that name (whose own link, where it exists, is the one of its property): CLI_DISTANCE_MATRIX: the fields of `args` read as the record's projections (a store to one is refused); ignored: log_config.configure_logging(args), logger.info/warning; Screen.load_h5(p), ThetaHolder(n_thetas=1), h.load_h5(p), h.concat(l), args.metric_cls(**args.metric_params), the keyword call calculate_pairwise_distance_matrix_on_predictions(...) with its default progress=False, typed effect r.save(p). ")
 
+# ---- wave 6 of the source link: the constructor of MSEDistance (Generated/SrcInits.v, Proofs/C07Source_Init_MSEDistance.v, C07Source_ConstructedMse.v) ----
+THEOREMS.update({
+    "C07_model_is_source_mse_distance_init": "the translated MSEDistance.__init__ stores sigmoid (default True, checked against the signature): the flag the translated distance reads is the constructor argument",
+    "C07_source_constructed_mse_distance": "translated __init__ composed with the translated distance: an MSEDistance constructed with `sigmoid` is the model mse_distance with that flag",
+})
+EXPLANATION += ("  CONSTRUCTOR: MSEDistance.__init__ is re-translated on every run (LS_INIT_MSE -> Generated/SrcInits.v) and proved to store its flag; "
+                "trusted: the translator only (no primitive): `self.<attr>` is a variable of the translation (attr_vars), the value of the translated __init__ is the tuple of the attributes when it ends; an attribute that is not declared is refused.")
+
 
 def _tmpdir():
     os.makedirs(common.WORK, exist_ok=True)
